@@ -590,6 +590,9 @@ impl<RW: QueueRW<T>, T> InnerRecv<RW, T> {
     }
 
     pub fn add_stream(&self) -> InnerRecv<RW, T> {
+        // A handle that is only ever used to subscribe new streams must still
+        // acknowledge reclamation epochs, or nothing retired is freed while it lives
+        self.examine_signals();
         InnerRecv {
             queue: self.queue.clone(),
             reader: self
@@ -1020,6 +1023,11 @@ impl Wait for FutWait {
 
 impl<RW: QueueRW<T>, T> Clone for InnerSend<RW, T> {
     fn clone(&self) -> InnerSend<RW, T> {
+        // see InnerRecv::add_stream: a handle only used for cloning keeps up too
+        let signal = self.queue.manager.signal.load(Relaxed);
+        if signal.has_action() {
+            self.handle_signals(signal);
+        }
         self.state.set(QueueState::Multi);
         let rval = InnerSend {
             queue: self.queue.clone(),
@@ -1033,6 +1041,8 @@ impl<RW: QueueRW<T>, T> Clone for InnerSend<RW, T> {
 
 impl<RW: QueueRW<T>, T> Clone for InnerRecv<RW, T> {
     fn clone(&self) -> InnerRecv<RW, T> {
+        // see InnerRecv::add_stream: a handle only used for cloning keeps up too
+        self.examine_signals();
         self.reader.dup_consumer();
         InnerRecv {
             queue: self.queue.clone(),
